@@ -186,11 +186,11 @@ def next_level_instances(ctx) -> List[Tuple[KitClass, Optional[KitClass], KitCla
             continue
         if _delegates_to_super(v):
             continue
-        cands = [
-            m for m in inv
-            if m.role == "module" and not m.is_part and m.ci.module is v.ci.module and m.level == v.level
-            and (m.structure_owner is None or m.structure_owner.module is None or not m.structure_owner.module.name.startswith("moclo.kits."))
-        ]
+        cands = [m for m in inv if m.role == "module" and not m.is_part and m.ci.module is v.ci.module and m.level == v.level]
+        if len(cands) != 1:
+            # several module classes of that level: the one with the generic structure of moclo.core (the others are products)
+            cands = [m for m in cands
+                     if m.structure_owner is None or m.structure_owner.module is None or not m.structure_owner.module.name.startswith("moclo.kits.")]
         if len(cands) != 1:
             raise AnalysisError(
                 "cannot pair %s with the module class of its level (%d candidates)" % (v.name, len(cands))
@@ -265,7 +265,9 @@ def next_level_inclusion(ctx, vec: KitClass, prod: Optional[KitClass], nxt: KitC
             raise AnalysisError("%s: unbounded run is not N" % prod.name)
         preA, postA = body[:ri], body[ri + 1:]
         left_limit, right_limit = len(preA), 0
-    aligns = includes(preA, v_min, postA, headB, tailB)
+    alts_head = [(lo, hi, w) for lo, hi, w in B.alts if hi <= bi]
+    alts_tail = [(lo - (bi + 1), hi - (bi + 1), w) for lo, hi, w in B.alts if lo > bi]
+    aligns = includes(preA, v_min, postA, headB, tailB, alts_head=alts_head, alts_tail=alts_tail)
     ok = r.ob(
         rule + ".inclusion", name, bool(aligns),
         "no alignment: a product %s . N{%d,} . %s is not always accepted by %s (%s)"
@@ -355,7 +357,7 @@ def screen_of(ctx, fi: FuncInfo):
     return res
 
 
-def screen_obligation(ctx, kc: KitClass, rule: str, informational: bool = False) -> bool:
+def screen_obligation(ctx, kc: KitClass, rule: str, informational: bool = False, threshold: bool = True) -> bool:
     """module-role classes whose sites flank the target: the resolved _match
     digests the matched region with the class's own cutter and raises above
     T = sites + 1 fragments."""
@@ -369,13 +371,14 @@ def screen_obligation(ctx, kc: KitClass, rule: str, informational: bool = False)
     pat = kc.pattern
     nsites = len(pat.count_literal(site)) + len(pat.count_literal(rcsite))
     where = raw.where()
-    info = getattr(ctx, "k21_info", {}).get(raw.qualname)
+    info = getattr(ctx, "k21_info", {}).get(kc.name) or getattr(ctx, "k21_info", {}).get(raw.qualname)
     if info is not None:
         # decided from the abstract evaluation of the resolved _match (kernel K21): robust to named intermediates and early returns
         det = []
         dig = info["digests"]
         if not dig:
-            det.append("the matched region is never digested")
+            if threshold:
+                det.append("the matched region is never digested")
         else:
             if not all(d["own_cutter"] for d in dig):
                 det.append("the digest does not use the class's own cutter")
@@ -384,7 +387,9 @@ def screen_obligation(ctx, kc: KitClass, rule: str, informational: bool = False)
             if any(d["extra_args"] for d in dig):
                 det.append("catalyse is called with extra arguments")
         rs = [x for x in info["raises"] if x["min_fragments"] is not None]
-        if not rs:
+        if not threshold:
+            pass
+        elif not rs:
             det.append("no path rejects a record on the number of fragments")
         else:
             thr = min(x["min_fragments"] for x in rs)
@@ -452,3 +457,22 @@ def _digest_region(fi: FuncInfo, arg: Optional[ast.expr]) -> Optional[str]:
             return "group%d" % a.value
         return None
     return None
+
+
+def module_screen_rule(ctx, rule: str, threshold: bool = True):
+    """Every module-role class whose sites flank the target screens exactly the
+    matched region (group 0) with its own cutter, at the right threshold."""
+    r = ctx.report
+    for kc in ctx.inventory:
+        if not kc.concrete or kc.role != "module" or kc.pattern is None or kc.pattern_error:
+            continue
+        site, n, k = enzyme_geometry(kc.cutter)
+        pat = kc.pattern
+        if pat.three_adjacent_groups() is not None:
+            continue
+        (a1, b1), _, (a3, b3) = pat.groups
+        flank = pat.site_before(a1, site, n) and pat.site_after(b3, _rc(site), n)
+        if flank:
+            screen_obligation(ctx, kc, rule, threshold=threshold)
+        else:
+            r.note("%s keeps its sites inside the target by design: no screen obligation" % kc.name)
